@@ -428,7 +428,7 @@ class Body:
         return {norm(callee_name(r[1][2])) for r in recs if r[1][0] == "call" and callee_name(r[1][2])}
 
     # ---- expression reconstruction ------------------------------------------------------
-    def expr(self, o, depth=12, _seen=None, expand_named=False):
+    def expr(self, o, depth=40, _seen=None, expand_named=False):
         """Reconstruct an expression tree for an operand (or place dict). Temporaries with a single
         definition are expanded; named user variables are kept as ('var', name, idx) unless expand_named.
         Result: nested tuples, hashable, comparable."""
